@@ -59,7 +59,7 @@ ALPHA_B = 'ab\n<>01\x00\xff'
 ALPHA_T = 'ab\n<>01é€\U0001f600'
 ENCODINGS = [None, None, 'utf-8', 'utf-8', 'utf-16-le']
 WINDOWS = [1, 2, 3, 5, 8, 16, 64, 4096, 2097152]
-PKTSIZES = [1, 2, 3, 7, 64, 32768]
+PKTSIZES = [1, 1, 2, 2, 3, 7, 64, 32768]
 
 # (pattern, longest match): fixed shape, unique head and tail
 REGEXES = [(r'<[01]>', 3), (r'\n|>>', 2), (r'a{2}b', 3), (r'[01]{2}', 2),
@@ -172,6 +172,10 @@ class StreamModel:
         self.other: Optional['StreamModel'] = None
         self.eof_seen = False
         self.deferred: Optional[Violation] = None
+        # (start, end) in stream units of every separator match returned
+        self.matches: List[tuple] = []
+        # lengths of the chunks the channel delivered (instrumentation)
+        self.chunks: List[int] = []
 
     # -- helpers ----------------------------------------------------------
 
@@ -320,6 +324,10 @@ class StreamModel:
                     self.fail('result', op, 'returned %d units, earliest '
                               'separator ends at %r of %d' %
                               (len(v), e, len(r)))
+                sl = e - max(i for i in range(e) if earliest_end(
+                    self.enc, spec, r[i:e]) is not None)
+                self.matches.append((self.consumed + e - sl,
+                                     self.consumed + e))
                 self.take(e)
                 return
 
@@ -405,6 +413,10 @@ class StreamModel:
 
         self.consumed += len(v)
 
+        if not v and okind == 'ret' and self.done() and \
+                (kind in ('readall', 'line') or kind == 'read' and op[1]):
+            self.eof_seen = True
+
 
 def _short(out) -> str:
     return repr(out)[:120]
@@ -476,14 +488,6 @@ def op_labels(op, model: StreamModel, cfg, labels: set) -> None:
             else:
                 seplen = REGEXES[spec[1] % len(REGEXES)][1]
 
-            if spec[0] != 's' or len(spec[1]) > 1:
-                # absolute byte positions are unknown for text, unit
-                # positions are what the packet size splits for bytes
-                start = model.consumed + e - seplen
-                pkt = cfg['pkt']
-                if seplen > 1 and (pkt < seplen or start // pkt !=
-                                   (model.consumed + e - 1) // pkt):
-                    labels.add('sep-spans-packet')
             if e > cfg['win']:
                 labels.add('sep-beyond-window')
         if spec[0] == 't':
@@ -583,10 +587,34 @@ def make_pair(case, body, server_api: str, **sopts) -> Pair:
     return Pair(sopts)
 
 
+def watch_chunks(reader, models) -> None:
+    """Record how the channel chunked each stream (labels only)"""
+
+    session, _ = reader.get_redirect_info()
+    orig = session.data_received
+
+    def data_received(data, datatype):
+        models[datatype].chunks.append(len(data))
+        orig(data, datatype)
+
+    session.data_received = data_received
+
+
+def span_labels(model: 'StreamModel', labels: set) -> None:
+    bounds = set(itertools.accumulate(model.chunks))
+
+    for start, end in model.matches:
+        if any(start < b < end for b in bounds):
+            labels.add('sep-spans-packet')
+
+
 def finish_case(h, labels, nontrivial_labels, models=()) -> CaseResult:
     if h.loop_errors:
         raise Violation('loop-error', repr(h.loop_errors[0])[:600],
                         'loop-error')
+
+    for model in models:
+        span_labels(model, labels)
 
     for model in models:
         if model.deferred is not None:
@@ -644,6 +672,7 @@ def run_reader(case) -> CaseResult:
         me = StreamModel('stderr', enc, [case.get('err', '')], [],
                          case['win'], labels)
         mo.other, me.other = me, mo
+        watch_chunks(rout, {None: mo, STDERR: me})
         readers = {'o': (rout, mo), 'e': (rerr, me)}
 
         nbytes = len(case['out'].encode(enc)) if enc else len(case['out'])
@@ -767,13 +796,32 @@ async def drain_coro(reader, model, enc, how, labels, eof_check):
 
     if how == 'iter':
         labels.add('final-iter')
-        async for line in reader:
-            model.check(['line'], ('ret', line))
+        while True:
+            try:
+                async for line in reader:
+                    if not line and model.strict and model.done() and \
+                            model.other_bound() < model.limit:
+                        # known: the iterator tests at_eof() before it waits
+                        # for a line, so EOF arriving in a later packet than
+                        # the last line shows up as one more, empty, item
+                        model.defer('result', ['iter'], 'async for yielded '
+                                    'an empty item at the end of the stream '
+                                    '(only when EOF arrives after the last '
+                                    'line was read)',
+                                    'iter:trailing-empty-item')
 
-            if not line:
-                # see below
-                labels.add('empty-line-before-eof')
-                await asyncio.sleep(0)
+                    model.check(['line'], ('ret', line))
+
+                    if not line:
+                        # an empty partial line while the other stream fills
+                        # the shared window: let the other reader run
+                        labels.add('empty-line')
+                        await asyncio.sleep(0)
+            except (asyncssh.SignalReceived, asyncssh.BreakReceived,
+                    asyncssh.TerminalSizeChanged) as exc:
+                model.check(['line'], ('exc', exc_desc(exc)))
+                continue
+            break
 
         if model.done():
             model.eof_seen = True
@@ -834,9 +882,9 @@ def sep_strategy(alpha: str):
 
 def stream_strategy(alpha: str, pool, max_tokens: int):
     unit = st.sampled_from(alpha)
-    token = st.one_of(st.text(unit, max_size=8), st.sampled_from(pool),
-                      st.just('\n'), st.sampled_from(['<0>', '>>', 'aab',
-                                                      '1<', '<a>']))
+    token = st.one_of(st.text(unit, max_size=6), st.sampled_from(pool),
+                      st.sampled_from(pool), st.just('\n'),
+                      st.sampled_from(['<0>', '>>', 'aab', '1<', '<a>']))
     return st.lists(token, max_size=max_tokens).map(''.join)
 
 
@@ -845,6 +893,33 @@ def n_strategy(win: int, pkt: int):
                    (0, 1, 2, 3, pkt - 1, pkt, pkt + 1, win - 1, win, win + 1,
                     2 * win + 1, 3 * win)})
     return st.one_of(st.sampled_from(base), st.integers(0, 40))
+
+
+def op_strategy(win: int, pkt: int, seps, cancel: bool):
+    nst = n_strategy(win, pkt)
+    small = st.integers(0, 6)
+    sepof = st.sampled_from(seps)
+    build = {
+        'read': nst.map(lambda n: ['read', n]),
+        'read-small': small.map(lambda n: ['read', n]),
+        'exact': nst.map(lambda n: ['exact', n]),
+        'exact-small': small.map(lambda n: ['exact', n]),
+        'exactrem': st.integers(-2, 2).map(lambda d: ['exactrem', d]),
+        'line': st.just(['line']),
+        'until': sepof.map(lambda s: ['until', s]),
+        'readall': st.just(['readall']),
+        'pump': st.tuples(st.just('pump'), st.integers(1, 6)).map(list),
+        'pumpall': st.just(['pumpall']),
+        'untilc': st.tuples(st.just('untilc'), sepof,
+                            st.integers(0, 5)).map(list)}
+    kinds = ['read', 'read-small', 'read-small', 'exact', 'exact-small',
+             'exactrem', 'line', 'line', 'line', 'until', 'until', 'until',
+             'until', 'until', 'until', 'readall', 'pump', 'pumpall']
+
+    if cancel:
+        kinds.append('untilc')
+
+    return st.sampled_from(kinds).flatmap(lambda k: build[k])
 
 
 def end_strategy():
@@ -860,7 +935,7 @@ def end_strategy():
 
 def reader_strategy(tier: str):
     max_ops = 10 if tier == 'quick' else 24
-    max_tokens = 14 if tier == 'quick' else 40
+    max_tokens = 20 if tier == 'quick' else 40
 
     @st.composite
     def build(draw):
@@ -882,20 +957,7 @@ def reader_strategy(tier: str):
         else:
             err = draw(stream_strategy(alpha, pool, max_tokens // 2))
 
-        nst = n_strategy(win, pkt)
-        sepof = st.sampled_from(seps)
-        op = st.one_of(
-            nst.map(lambda n: ['read', n]),
-            nst.map(lambda n: ['exact', n]),
-            st.integers(-2, 2).map(lambda d: ['exactrem', d]),
-            st.just(['line']),
-            sepof.map(lambda s: ['until', s]),
-            sepof.map(lambda s: ['until', s]),
-            st.just(['readall']),
-            st.tuples(st.just('pump'), st.integers(1, 6)).map(list),
-            st.just(['pumpall']),
-            st.tuples(st.just('untilc'), sepof,
-                      st.integers(0, 5)).map(list))
+        op = op_strategy(win, pkt, seps, True)
         ops = draw(st.lists(op, max_size=max_ops))
         eops = draw(st.lists(op, max_size=max_ops // 2)) \
             if mode == 'conc' else []
@@ -922,6 +984,1134 @@ def reader_strategy(tier: str):
     return build()
 
 
+# ---------------------------------------------------------------------------
+# family: srvreader
+# ---------------------------------------------------------------------------
+
+NT_SRV = {'exc-between-data', 'inc-before-exc', 'n>window',
+          'sep-spans-packet', 'data>window'}
+SIG_EXC = (asyncssh.SignalReceived, asyncssh.BreakReceived,
+           asyncssh.TerminalSizeChanged)
+
+
+def send_exc(chan, desc) -> None:
+    if desc[0] == 'signal':
+        chan.send_signal(desc[1])
+    elif desc[0] == 'break':
+        chan.send_break(desc[1])
+    else:
+        chan.change_terminal_size(*desc[1:])
+
+
+def run_srvreader(case) -> CaseResult:
+    enc = case['enc']
+    labels = set()
+    cfg = {'win': case['win'], 'pkt': case['pkt']}
+    chunker = chunker_of(case)
+    holder = {}
+
+    async def body(stdin, stdout, stderr, chan):
+        holder.update(stdin=stdin, stdout=stdout, chan=chan,
+                      done=asyncio.Event())
+        await holder['done'].wait()
+        chan.exit(0)
+
+    pair = make_pair(case, body, case['sapi'], encoding=enc,
+                     window=case['win'], max_pktsize=case['pkt'])
+    h = pair.h
+
+    try:
+        pair.handshake(chunker)
+
+        async def opener():
+            if case['capi'] == 'process':
+                proc = await pair.c.create_process('cmd', encoding=enc)
+                return proc.channel, proc.stdin
+            w, _, _ = await pair.c.open_session('cmd', encoding=enc)
+            return w.channel, w
+
+        cchan, cwriter = run_hang(h, opener(), chunker, 'open')
+        h.pump(chunker)
+
+        if 'stdin' not in holder:
+            raise Violation('open', 'server handler not started', 'open')
+
+        # model: segments separated by exceptions
+        segs = ['']
+        excs = []
+        before_last = 0
+        nbytes = 0
+
+        for item in case['items']:
+            if item[0] == 'd':
+                segs[-1] += item[1]
+                nbytes += len(item[1].encode(enc)) if enc else len(item[1])
+            else:
+                excs.append(item[1])
+                segs.append('')
+                before_last = nbytes
+
+        strict = before_last < case['win']
+        labels.add('strict' if strict else 'weak')
+
+        if nbytes > case['win']:
+            labels.add('data>window')
+        if any(segs[i] and segs[i + 1] for i in range(len(excs))):
+            labels.add('exc-between-data')
+        if excs:
+            labels.add('has-exc')
+
+        model = StreamModel('stdin', enc, segs, excs, case['win'], labels,
+                            strict)
+        reader = holder['stdin']
+        watch_chunks(reader, {None: model})
+
+        # the client sends everything up front
+        for item in case['items']:
+            if item[0] == 'd':
+                h.call(cwriter.write, conv(enc, item[1]))
+            else:
+                h.call(send_exc, cchan, item[1])
+
+            for _ in range(case.get('gap', 0)):
+                for side in ('c', 's'):
+                    h.deliver(side, next(chunker) if chunker else None)
+                h.settle()
+
+        if case['end'] == 'eof':
+            h.call(cwriter.write_eof)
+        else:
+            h.call(cwriter.close)
+
+        labels.add('end-' + case['end'])
+
+        for op in case['ops']:
+            if op[0] == 'pump':
+                for _ in range(op[1]):
+                    for side in ('c', 's'):
+                        h.deliver(side, next(chunker) if chunker else None)
+                    h.settle()
+                continue
+            if op[0] == 'pumpall':
+                h.pump(chunker)
+                continue
+
+            if strict:
+                op = resolve(op, model)
+                op_labels(op, model, cfg, labels)
+                r, t = model.rem(), model.term()
+                if r and t != 'eof' and (
+                        op[0] == 'exact' and op[1] > len(r) or
+                        op[0] in ('until', 'line') and earliest_end(
+                            enc, op[1] if op[0] == 'until' else ['s', '\n'],
+                            r) is None):
+                    labels.add('inc-before-exc')
+            elif op[0] == 'exactrem':
+                op = ['exact', max(1, 3 + op[1])]
+
+            out = run_hang(h, do_op(reader, enc, op), chunker,
+                           '%s(stdin)' % op[0])
+            model.check(op, out)
+
+        run_hang(h, drain_coro(reader, model, enc, case['final'], labels,
+                               lambda *a: None), chunker,
+                 'final-' + case['final'])
+
+        if not model.done():
+            model.fail('incomplete-stream', ['final'], '%d of %d units and '
+                       '%d of %d exceptions delivered at EOF' %
+                       (model.consumed, model.total, model.nexc, len(excs)))
+        if not reader.at_eof():
+            model.fail('at-eof', ['final'], 'not at_eof() at the end')
+
+        h.call(holder['done'].set)
+        h.pump(chunker)
+        run_hang(h, cchan.wait_closed(), chunker, 'wait_closed')
+        return finish_case(h, labels, NT_SRV, [model])
+    finally:
+        pair.close()
+
+
+def srvreader_strategy(tier: str):
+    max_ops = 10 if tier == 'quick' else 24
+
+    @st.composite
+    def build(draw):
+        enc = draw(st.sampled_from(ENCODINGS))
+        alpha = ALPHA_T if enc else ALPHA_B
+        win = draw(st.sampled_from([3, 8, 16, 64, 64, 4096, 2097152]))
+        pkt = draw(st.sampled_from(PKTSIZES))
+        sepst, _ = sep_strategy(alpha)
+        seps = draw(st.lists(sepst, min_size=1, max_size=3))
+        pool = [s for spec in seps if spec[0] in 'st'
+                for s in ([spec[1]] if spec[0] == 's' else spec[1])] or ['\n']
+        data = stream_strategy(alpha, pool, 6).map(lambda s: ['d', s])
+        exc = st.one_of(
+            st.sampled_from(['INT', 'TERM', 'HUP', 'USR1']).map(
+                lambda n: ['signal', n]),
+            st.sampled_from([0, 1, 500, 4294967295]).map(
+                lambda n: ['break', n]),
+            st.tuples(st.integers(0, 300), st.integers(0, 100),
+                      st.sampled_from([0, 640]), st.sampled_from([0, 480]))
+            .map(lambda t: ['size'] + list(t))).map(lambda d: ['x', d])
+        items = draw(st.lists(st.one_of(data, data, exc), max_size=8))
+        op = op_strategy(win, pkt, seps, False)
+        return {'enc': enc, 'win': win, 'pkt': pkt, 'items': items,
+                'ops': draw(st.lists(op, max_size=max_ops)),
+                'end': draw(st.sampled_from(['eof', 'eof', 'close'])),
+                'final': draw(st.sampled_from(['readall', 'line', 'read1',
+                                               'iter'])),
+                'gap': draw(st.sampled_from([0, 0, 1, 3])),
+                'chunks': draw(st.one_of(
+                    st.just([]), st.just([1]),
+                    st.lists(st.integers(1, 400), min_size=1, max_size=5))),
+                'capi': draw(st.sampled_from(['session', 'process'])),
+                'sapi': draw(st.sampled_from(['session', 'process']))}
+
+    return build()
+
+
+# ---------------------------------------------------------------------------
+# family: process
+# ---------------------------------------------------------------------------
+
+NT_PROC = {'exit-before-data', 'status-before-read', 'data>window',
+           'timeout'}
+
+
+def plan_writes(case):
+    """The server script as the list of writes it performs, in order"""
+
+    out, err = case['out'], case.get('err', '')
+    pos = {'o': 0, 'e': 0}
+    plan = []
+
+    for act in case['script']:
+        if act[0] in 'oe':
+            src = out if act[0] == 'o' else err
+            data = src[pos[act[0]]:pos[act[0]] + act[1]]
+            pos[act[0]] += len(data)
+            if data:
+                plan.append((act[0], data))
+        else:
+            plan.append((act[0],))
+
+    if pos['o'] < len(out):
+        plan.append(('o', out[pos['o']:]))
+    if pos['e'] < len(err):
+        plan.append(('e', err[pos['e']:]))
+
+    return plan
+
+
+def want_exit(end):
+    import signal as _signal
+
+    kind = end[0][4:] if end[0].startswith('eof+') else end[0]
+
+    if kind == 'exit':
+        return (end[1] & 0xff, None, end[1] & 0xff)
+    if kind == 'signal':
+        return (-1, (end[1], end[2], end[3], end[4]),
+                -int(getattr(_signal, 'SIG' + end[1])))
+    return (None, None, None)
+
+
+def run_process(case) -> CaseResult:
+    enc = case['enc']
+    labels = set()
+    chunker = chunker_of(case)
+    plan = plan_writes(case)
+    got_stdin = {}
+    mode = case['client']
+    inp = case.get('input') or ''
+
+    async def body(stdin, stdout, stderr, chan):
+        if case.get('hw') is not None:
+            chan.set_write_buffer_limits(high=case['hw'])
+
+        if inp and case.get('srv_reads'):
+            got_stdin['data'] = await stdin.read()
+            got_stdin['eof'] = stdin.at_eof()
+
+        for act in plan:
+            if act[0] == 'o':
+                stdout.write(conv(enc, act[1]))
+            elif act[0] == 'e':
+                stderr.write(conv(enc, act[1]))
+            elif act[0] == 'drain':
+                await stdout.drain()
+            else:
+                await asyncio.sleep(0)
+
+        if case['end'][0] == 'hang':
+            await asyncio.Event().wait()
+
+        finish(case['end'], stdout, chan)
+
+    pair = make_pair(case, body, case['sapi'], encoding=enc)
+    h = pair.h
+
+    try:
+        pair.handshake(chunker)
+        kw = dict(encoding=enc, window=case['win'], max_pktsize=case['pkt'])
+
+        if case.get('merge'):
+            kw['stderr'] = asyncssh.STDOUT
+            labels.add('merge-stderr')
+            want_out = ''.join(a[1] for a in plan if a[0] in 'oe')
+            want_err = None
+        else:
+            want_out = case['out']
+            want_err = case.get('err', '')
+
+        if inp:
+            kw['input'] = conv(enc, inp)
+            labels.add('input')
+
+        nbytes = len((want_out + (want_err or '')).encode(enc)) if enc \
+            else len(want_out + (want_err or ''))
+
+        if nbytes > case['win']:
+            labels.add('data>window')
+            if case['end'][0] in ('exit', 'signal'):
+                labels.add('exit-before-data')
+
+        labels.add('client-' + mode)
+        labels.add('end-' + case['end'][0])
+        check = bool(case.get('check'))
+        may_epipe = bool(inp) and not case.get('srv_reads')
+        models = []
+        res = None
+
+        def outcome(coro, what):
+            """-> ('ok', SSHCompletedProcess) | ('error', ProcessError)"""
+
+            async def go():
+                try:
+                    return ('ok', await coro)
+                except asyncssh.ProcessError as exc:
+                    return ('error', exc)
+                except BrokenPipeError:
+                    # input= is written with chan.write(), documented to
+                    # raise OSError once the channel is no longer open for
+                    # sending: possible when the command may exit without
+                    # reading its input
+                    if not may_epipe:
+                        raise
+                    return ('epipe', None)
+
+            return run_hang(h, go(), chunker, what)
+
+        if mode == 'run':
+            res = outcome(pair.c.run('cmd', check=check, **kw), 'run')
+        else:
+            comm_input = kw.pop('input', None) if mode == 'communicate' \
+                else None
+
+            async def opener():
+                return await pair.c.create_process('cmd', **kw)
+
+            kind, proc = outcome(opener(), 'create_process')
+
+            if kind == 'epipe':
+                labels.add('input-epipe')
+                h.pump(chunker)
+                return finish_case(h, labels, set())
+            mo = StreamModel('stdout', enc, [want_out], [], case['win'],
+                             labels)
+            me = StreamModel('stderr', enc, [want_err or ''], [],
+                             case['win'], labels)
+            mo.other, me.other = me, mo
+            models = [mo, me]
+            collected = ['', '']
+
+            for op in case.get('pre', []):
+                if op[0] == 'pumpall':
+                    h.pump(chunker)
+                    if nbytes > case['win'] and \
+                            case['end'][0] in ('exit', 'signal'):
+                        labels.add('status-before-read')
+                elif op[0] == 'collect':
+                    o, e = h.call(proc.collect_output)
+                    labels.add('collect')
+                    for i, (v, m) in enumerate(((o, mo), (e, me))):
+                        v = m.typed(op, v)
+                        if not m.rem().startswith(v):
+                            m.fail('result', op, 'collect_output() is not '
+                                   'the next part of the stream')
+                        m.take(len(v))
+                        collected[i] += v
+                else:
+                    if me.total:
+                        # nobody reads stderr here: a stdout reader may
+                        # legitimately starve once stderr fills the window
+                        continue
+                    op = resolve(op, mo)
+                    out = run_hang(h, do_op(proc.stdout, enc, op), chunker,
+                                   'pre-' + op[0])
+                    mo.check(op, out)
+                    labels.add('pre-read')
+
+            want_out = mo.rem()
+            want_err = me.rem() if want_err is not None else None
+
+            if mode == 'wait':
+                res = outcome(proc.wait(check), 'wait')
+            elif mode == 'communicate':
+                async def comm():
+                    o, e = await proc.communicate(comm_input)
+                    return asyncssh.SSHCompletedProcess(
+                        proc.env, proc.command, proc.subsystem,
+                        proc.exit_status, proc.exit_signal, proc.returncode,
+                        o, e)
+
+                res = outcome(comm(), 'communicate')
+            else:
+                labels.add('timeout')
+
+                async def waiter():
+                    try:
+                        await proc.wait(check, timeout=5)
+                    except asyncssh.TimeoutError as exc:
+                        return ('timeout', exc)
+                    return ('returned',)
+
+                task = h.spawn(waiter())
+                h.pump(chunker)
+
+                if task.done():
+                    raise Violation('timeout', 'wait(timeout=5) finished '
+                                    'at once: %r' % (task.result()[0],),
+                                    'timeout-early')
+
+                h.advance(6)
+                h.pump(chunker)
+
+                if not task.done() or task.result()[0] != 'timeout':
+                    raise Violation('timeout', 'wait(timeout=5) did not '
+                                    'raise TimeoutError after 6 s',
+                                    'timeout-missing')
+
+                res = ('error', task.result()[1])
+                h.call(proc.close)
+                h.pump(chunker)
+
+        kind, obj = res
+
+        if kind == 'epipe':
+            labels.add('input-epipe')
+            h.pump(chunker)
+            return finish_case(h, labels, set())
+
+        wexit = want_exit(case['end'])
+        should_raise = (check and bool(wexit[0]) and mode in ('run', 'wait')
+                        ) or mode == 'timeout'
+
+        if (kind == 'error') != should_raise:
+            raise Violation('check-flag', 'check=%s, exit status %r: %s' %
+                            (check, wexit[0], kind), 'check-flag')
+
+        got = (obj.exit_status, obj.exit_signal, obj.returncode)
+
+        if got != wexit:
+            raise Violation('exit-info', '%s reported (status, signal, '
+                            'returncode) %r, server sent %r' %
+                            (mode, got, wexit), 'exit-info:' + mode)
+
+        for name, gotv, wantv in (('stdout', obj.stdout, want_out),
+                                  ('stderr', obj.stderr, want_err)):
+            if wantv is None:
+                if gotv:
+                    raise Violation('output', '%s not empty although '
+                                    'redirected' % name, 'output:redirected')
+                continue
+
+            if type(gotv) is not (str if enc else bytes):
+                raise Violation('result-type', '%s is %s' %
+                                (name, type(gotv).__name__), 'result-type')
+
+            gotv = unconv(enc, gotv)
+
+            if gotv != wantv:
+                raise Violation(
+                    'output', '%s: %s of %s has %d units, the server wrote '
+                    '%d before %s (exit info %r); first difference at %d' %
+                    (mode, name, type(obj).__name__, len(gotv), len(wantv),
+                     case['end'][0], got,
+                     next((i for i, (a, b) in enumerate(zip(gotv, wantv))
+                           if a != b), min(len(gotv), len(wantv)))),
+                    'output:%s:%s' % (mode, name))
+
+        if inp and case.get('srv_reads'):
+            if unconv(enc, got_stdin.get('data', conv(enc, ''))) != inp or \
+                    not got_stdin.get('eof'):
+                raise Violation('input', 'server read %d units of stdin '
+                                '(eof=%r), input had %d' %
+                                (len(got_stdin.get('data', '')),
+                                 got_stdin.get('eof'), len(inp)),
+                                'input:' + mode)
+            labels.add('input-checked')
+
+        h.pump(chunker)
+        return finish_case(h, labels, NT_PROC, models)
+    finally:
+        pair.close()
+
+
+def process_strategy(tier: str):
+    max_tokens = 20 if tier == 'quick' else 60
+
+    @st.composite
+    def build(draw):
+        enc = draw(st.sampled_from(ENCODINGS))
+        alpha = ALPHA_T if enc else ALPHA_B
+        win = draw(st.sampled_from(WINDOWS))
+        pkt = draw(st.sampled_from(PKTSIZES))
+        big = st.integers(0, 3).flatmap(
+            lambda k: st.text(st.sampled_from(alpha), min_size=1,
+                              max_size=4).map(
+                lambda s: (s * (1 + 70 * k * (tier != 'quick') + 9 * k))))
+        out = draw(st.one_of(stream_strategy(alpha, ['\n'], max_tokens),
+                             big))
+        err = draw(st.one_of(st.just(''),
+                             stream_strategy(alpha, ['\n'], max_tokens // 2)))
+        wsz = st.one_of(st.integers(0, 12),
+                        st.sampled_from([1, pkt, win, win + 1, 1000]))
+        script = draw(st.lists(st.one_of(
+            wsz.map(lambda n: ['o', n]), wsz.map(lambda n: ['o', n]),
+            wsz.map(lambda n: ['e', n]), st.just(['drain']),
+            st.just(['yield'])), max_size=8))
+        client = draw(st.sampled_from(['run', 'run', 'wait', 'wait', 'wait',
+                                       'communicate', 'communicate',
+                                       'timeout']))
+        end = ['hang'] if client == 'timeout' else draw(
+            end_strategy().filter(lambda e: e != ['eof']))
+        inp = draw(st.one_of(st.none(), st.text(st.sampled_from(alpha),
+                                                max_size=40)))
+        pre = []
+
+        if client in ('wait', 'communicate', 'timeout'):
+            op = st.one_of(
+                n_strategy(win, pkt).map(lambda n: ['read', n]),
+                st.integers(0, 9).map(lambda n: ['exact', n]),
+                st.just(['line']), st.just(['pumpall']),
+                st.just(['pumpall']), st.just(['collect']))
+            if client == 'timeout' or client == 'communicate' and inp:
+                # no EOF / the server waits for input first: stream reads
+                # could block for good
+                op = st.sampled_from([['pumpall'], ['collect']])
+            pre = draw(st.lists(op, max_size=4))
+
+        return {'enc': enc, 'win': win, 'pkt': pkt, 'out': out, 'err': err,
+                'script': script, 'end': end, 'client': client,
+                'input': inp, 'srv_reads': draw(st.booleans()),
+                'check': draw(st.booleans()), 'pre': pre,
+                'merge': draw(st.sampled_from([False, False, False, True])),
+                'hw': draw(st.sampled_from([None, None, 0, 4, 64])),
+                'chunks': draw(st.one_of(
+                    st.just([]), st.just([1]),
+                    st.lists(st.integers(1, 400), min_size=1, max_size=5))),
+                'sapi': draw(st.sampled_from(['session', 'process']))}
+
+    return build()
+
+
+# ---------------------------------------------------------------------------
+# family: redirect
+# ---------------------------------------------------------------------------
+
+NT_REDIR = {'data>window', 'late-redirect', 'proc-to-proc', 'big-stdin'}
+PIPE_MAX = 48000    # below the kernel pipe / socket buffer: writes never block
+
+
+class MemWriteTransport(asyncio.WriteTransport):
+    """In-memory transport under an asyncio.StreamWriter target"""
+
+    def __init__(self):
+        super().__init__()
+        self.data = bytearray()
+        self.eof = False
+        self.closed = False
+        self.late = False
+
+    def write(self, data):
+        if self.eof or self.closed:
+            self.late = True
+        self.data += data
+
+    def can_write_eof(self):
+        return True
+
+    def write_eof(self):
+        self.eof = True
+
+    def is_closing(self):
+        return self.closed
+
+    def close(self):
+        self.closed = True
+
+    def abort(self):
+        self.closed = True
+
+    def get_write_buffer_size(self):
+        return 0
+
+    def get_write_buffer_limits(self):
+        return (0, 0)
+
+    def set_write_buffer_limits(self, high=None, low=None):
+        pass
+
+
+def run_io(h, coro, chunker, what: str, idle_limit: int = 4):
+    """h.run() for cases with real file descriptors: when nothing is ready
+    and nothing is on the wire the selector is still polled (timeout 0) a
+    few times, so pipe/socket readiness is noticed"""
+
+    task = h.spawn(coro)
+    wire = h.wire
+    idle = 0
+
+    for _ in range(5000000):
+        if task.done():
+            return task.result()
+
+        moved = False
+
+        for side in ('c', 's'):
+            if wire.q[side] or (wire.closed[side] and
+                                not wire.eof_delivered[side]):
+                h.deliver(side, next(chunker) if chunker else None)
+                moved = True
+
+        if h.ready() or moved:
+            h.step()
+            idle = 0
+            continue
+
+        h.step()
+
+        if h.ready() or wire.q['c'] or wire.q['s']:
+            idle = 0
+        else:
+            idle += 1
+            if idle >= idle_limit:
+                break
+
+    if task.done():
+        return task.result()
+
+    raise Violation('hang', '%s never completed although the system is '
+                    'quiescent' % what, 'hang:' + what.split(' ')[0])
+
+
+class Endpoints:
+    """Builds redirection sources/targets and reads them back"""
+
+    def __init__(self, h, enc, tmp):
+        self.h = h
+        self.enc = enc
+        self.tmp = tmp
+        self.closers = []
+        self.n = 0
+
+    def path(self) -> str:
+        self.n += 1
+        return os.path.join(self.tmp, 'f%d' % self.n)
+
+    def close(self) -> None:
+        for fn in reversed(self.closers):
+            try:
+                fn()
+            except OSError:
+                pass
+
+    def raw(self, text: str) -> bytes:
+        return text.encode(self.enc) if self.enc else text.encode('latin-1')
+
+    # -- sources ----------------------------------------------------------
+
+    def source(self, kind: str, text: str):
+        raw = self.raw(text)
+
+        if kind == 'devnull':
+            return asyncssh.DEVNULL
+        if kind == 'stream':
+            sr = asyncio.StreamReader()
+            sr.feed_data(raw)
+            sr.feed_eof()
+            return sr
+        if kind in ('pipe', 'pipefd'):
+            r, w = os.pipe()
+            os.write(w, raw)
+            os.close(w)
+            if kind == 'pipefd':
+                return r
+            f = os.fdopen(r, 'rb', buffering=0)
+            self.closers.append(f.close)
+            return f
+        if kind == 'socket':
+            a, b = socket.socketpair()
+            b.sendall(raw)
+            b.shutdown(socket.SHUT_WR)
+            self.closers.append(b.close)
+            self.closers.append(a.close)
+            return a
+
+        path = self.path()
+
+        with open(path, 'wb') as f:
+            f.write(raw)
+
+        if kind == 'path':
+            return path
+        if kind == 'pathlib':
+            import pathlib
+            return pathlib.PurePath(path)
+        if kind == 'fd':
+            return os.open(path, os.O_RDONLY)
+        if kind == 'textfile':
+            f = open(path, 'r', encoding=self.enc, newline='')
+        else:
+            f = open(path, 'rb')
+
+        self.closers.append(f.close)
+        return f
+
+    # -- targets ----------------------------------------------------------
+
+    def target(self, kind: str, recv_eof: bool):
+        """-> (target object, reader() -> (bytes, eof: True/False/None))"""
+
+        if kind == 'devnull':
+            return asyncssh.DEVNULL, None
+        if kind == 'stdout':
+            return asyncssh.STDOUT, None
+        if kind == 'stream':
+            tr = MemWriteTransport()
+            proto = asyncio.streams.FlowControlMixin(loop=self.h.loop)
+            writer = asyncio.StreamWriter(tr, proto, None, self.h.loop)
+            self.closers.append(tr.close)
+
+            def read_stream():
+                if tr.late:
+                    raise Violation('target', 'data written to the stream '
+                                    'after EOF', 'target:write-after-eof')
+                return bytes(tr.data), tr.eof
+
+            return writer, read_stream
+        if kind in ('pipe', 'pipefd'):
+            r, w = os.pipe()
+            os.set_blocking(r, False)
+            self.closers.append(lambda: os.close(r))
+
+            def read_pipe():
+                return drain_fd(lambda: os.read(r, 65536))
+
+            if kind == 'pipefd':
+                if not recv_eof:
+                    self.closers.append(lambda: os.close(w))
+                return w, read_pipe
+
+            f = os.fdopen(w, 'wb', buffering=0)
+            self.closers.append(f.close)
+            return f, read_pipe
+        if kind == 'socket':
+            a, b = socket.socketpair()
+            b.setblocking(False)
+            self.closers.append(b.close)
+            self.closers.append(a.close)
+            return a, lambda: drain_fd(lambda: b.recv(65536))
+
+        path = self.path()
+
+        def read_file():
+            with open(path, 'rb') as f:
+                return f.read(), None
+
+        if kind == 'path':
+            return path, read_file
+        if kind == 'pathlib':
+            import pathlib
+            return pathlib.PurePath(path), read_file
+        if kind == 'fd':
+            fd = os.open(path, os.O_WRONLY | os.O_CREAT, 0o600)
+            if not recv_eof:
+                self.closers.append(lambda: os.close(fd))
+            return fd, read_file
+        if kind == 'textfile':
+            f = open(path, 'w', encoding=self.enc, newline='')
+        else:
+            f = open(path, 'wb')
+
+        self.closers.append(f.close)
+
+        def read_fileobj():
+            closed = f.closed
+            if not closed:
+                f.flush()
+            return read_file()[0], closed
+
+        return f, read_fileobj
+
+
+def drain_fd(read):
+    """Everything queued on a non-blocking fd + whether EOF follows"""
+
+    out = []
+
+    while True:
+        try:
+            data = read()
+        except BlockingIOError:
+            return b''.join(out), False
+
+        if not data:
+            return b''.join(out), True
+
+        out.append(data)
+
+
+def run_redirect(case) -> CaseResult:
+    enc = case['enc']
+    labels = set()
+    chunker = chunker_of(case)
+    plan = plan_writes(case)
+    send_eof, recv_eof = case['send_eof'], case['recv_eof']
+    sin = case.get('stdin')
+    kin = sin['kind'] if sin else None
+    kout, kerr = case['stdout'], case['stderr']
+    peer = 'source' if kin == 'sshreader' else \
+        'sink' if kout == 'sshwriter' else None
+    srv = {}
+    out_text = case['out']
+    err_text = case.get('err', '')
+
+    if kerr == 'stdout':
+        out_text = ''.join(a[1] for a in plan if a[0] in 'oe')
+        err_text = None
+
+    if sin is None:
+        stdin_text, stdin_eof = None, None
+    elif kin == 'devnull':
+        stdin_text, stdin_eof = '', True
+    else:
+        stdin_text = sin['data']
+        stdin_eof = send_eof and (recv_eof or kin != 'sshreader')
+
+    async def slurp(stdin, text, eof, key):
+        if eof:
+            data = await stdin.read()
+        elif text:
+            data = await stdin.readexactly(len(text))
+        else:
+            data = conv(enc, '')
+
+        srv[key] = (unconv(enc, data), stdin.at_eof())
+
+    async def body(stdin, stdout, stderr, chan):
+        cmd = chan.get_command()
+
+        if cmd == 'B':
+            if peer == 'source':
+                stdout.write(conv(enc, sin['data']))
+            else:
+                await slurp(stdin, out_text, send_eof and recv_eof, 'B')
+            chan.exit(0)
+            return
+
+        if stdin_text is not None:
+            await slurp(stdin, stdin_text, stdin_eof, 'A')
+
+        for act in plan:
+            if act[0] == 'o':
+                stdout.write(conv(enc, act[1]))
+            elif act[0] == 'e':
+                stderr.write(conv(enc, act[1]))
+            elif act[0] == 'drain':
+                await stdout.drain()
+            else:
+                await asyncio.sleep(0)
+
+        end = case['end']
+
+        if case.get('late'):
+            # a later redirect() is only exercised while the channel is
+            # open (with or without EOF already received)
+            if end[0].startswith('eof+'):
+                stdout.write_eof()
+                end = [end[0][4:]] + end[1:]
+
+            srv['hold'] = asyncio.Event()
+            await srv['hold'].wait()
+
+        finish(end, stdout, chan)
+
+    pair = make_pair(case, body, case['sapi'], encoding=enc,
+                     window=case['swin'], max_pktsize=case['spkt'])
+    h = pair.h
+    tmp = tempfile.mkdtemp(prefix='c19-')
+    ends = Endpoints(h, enc, tmp)
+
+    try:
+        pair.handshake(chunker)
+        kw = dict(encoding=enc, window=case['win'], max_pktsize=case['pkt'])
+        procb = None
+
+        if peer:
+            async def open_b():
+                return await pair.c.create_process('B', **kw)
+
+            procb = run_io(h, open_b(), chunker, 'create_process(B)')
+            labels.add('proc-to-proc')
+
+        rkw = dict(send_eof=send_eof, recv_eof=recv_eof,
+                   bufsize=case['bufsize'])
+        readers = {}
+
+        if kin == 'sshreader':
+            rkw['stdin'] = procb.stdout
+        elif kin:
+            rkw['stdin'] = ends.source(kin, sin['data'])
+
+        for name, kind in (('stdout', kout), ('stderr', kerr)):
+            if kind == 'sshwriter':
+                rkw[name] = procb.stdin
+            elif kind != 'PIPE':
+                rkw[name], readers[name] = ends.target(kind, recv_eof)
+
+        labels.add('stdin-%s' % kin)
+        labels.add('stdout-' + kout)
+        labels.add('stderr-' + kerr)
+        labels.add('send_eof' if send_eof else 'no-send_eof')
+        labels.add('recv_eof' if recv_eof else 'no-recv_eof')
+
+        nout = len(ends.raw(out_text))
+
+        if nout > case['win'] and kout != 'PIPE':
+            labels.add('data>window')
+        if stdin_text and len(ends.raw(stdin_text)) > case['swin']:
+            labels.add('data>window')
+        if stdin_text and len(stdin_text) > 70000:
+            labels.add('big-stdin')
+
+        if case.get('late'):
+            labels.add('late-redirect')
+            late = {k: rkw.pop(k) for k in ('stdout', 'stderr') if k in rkw}
+
+            async def open_a():
+                proc = await pair.c.create_process('A', **kw, **rkw)
+                for _ in range(case['late']):
+                    await asyncio.sleep(0)
+                return proc
+
+            proca = run_io(h, open_a(), chunker, 'create_process(A)')
+            h.pump(chunker)
+
+            async def redirect_late():
+                await proca.redirect(bufsize=case['bufsize'],
+                                     send_eof=send_eof, recv_eof=recv_eof,
+                                     **late)
+
+            run_io(h, redirect_late(), chunker, 'redirect')
+            h.pump(chunker)
+
+            if 'hold' not in srv:
+                raise Violation('hang', 'command never finished writing',
+                                'hang:late-hold')
+
+            h.call(srv['hold'].set)
+        else:
+            async def open_a():
+                try:
+                    return await pair.c.create_process('A', **kw, **rkw)
+                except AssertionError:
+                    if 'stream' not in (kin, kout, kerr):
+                        raise
+                    # known: asyncio stream redirection needs the
+                    # connection object, which is gone once the channel
+                    # has closed (the command exited while the stdin
+                    # redirection was still being set up)
+                    raise Violation(
+                        'redirect-setup', 'create_process(stdin=%s, stdout='
+                        '%s, stderr=%s) raised AssertionError' %
+                        (kin, kout, kerr),
+                        'redirect:asyncio-stream-after-close') from None
+
+            proca = run_io(h, open_a(), chunker, 'create_process(A)')
+
+        res = run_io(h, proca.wait(), chunker, 'wait(A)')
+
+        if procb is not None:
+            resb = run_io(h, procb.wait(), chunker, 'wait(B)')
+
+            if resb.exit_status != 0:
+                raise Violation('exit-info', 'peer process status %r' %
+                                (resb.exit_status,), 'exit-info:peer')
+
+        # 1. what the remote command saw on stdin
+        if stdin_text is not None:
+            got = srv.get('A')
+
+            if got is None or got[0] != stdin_text or \
+                    bool(got[1]) != bool(stdin_eof):
+                raise Violation(
+                    'stdin', 'source %s (send_eof=%s): command read %s '
+                    'units eof=%s, source had %d, eof expected %s' %
+                    (kin, send_eof, got and len(got[0]), got and got[1],
+                     len(stdin_text), stdin_eof),
+                    'stdin:%s:%s' % (kin, 'data' if got is None or
+                                     got[0] != stdin_text else 'eof'))
+
+        # 2. redirection targets
+        for name, text in (('stdout', out_text), ('stderr', err_text)):
+            kind = kout if name == 'stdout' else kerr
+
+            if kind == 'sshwriter':
+                got = srv.get('B')
+                want_eof = send_eof and recv_eof
+
+                if got is None or got[0] != text or \
+                        bool(got[1]) != want_eof:
+                    raise Violation(
+                        'target', 'process-to-process: peer read %s units '
+                        'eof=%s, wanted %d eof=%s' %
+                        (got and len(got[0]), got and got[1], len(text),
+                         want_eof), 'target:sshwriter')
+                continue
+
+            reader = readers.get(name)
+
+            if kind == 'PIPE':
+                gotv = getattr(res, name)
+                if text is not None and unconv(enc, gotv) != text:
+                    raise Violation('output', '%s of completed process has '
+                                    '%d units, wrote %d' %
+                                    (name, len(gotv), len(text)),
+                                    'output:wait:' + name)
+                continue
+
+            if getattr(res, name):
+                raise Violation('output', '%s redirected but also '
+                                'collected' % name, 'output:redirected')
+
+            if reader is None:
+                continue
+
+            data, eof = reader()
+            want = ends.raw(text)
+
+            if data != want:
+                raise Violation(
+                    'target', '%s -> %s (recv_eof=%s, late=%s): target has '
+                    '%d bytes, command wrote %d; first difference at %d' %
+                    (name, kind, recv_eof, case.get('late'), len(data),
+                     len(want),
+                     next((i for i, (a, b) in enumerate(zip(data, want))
+                           if a != b), min(len(data), len(want)))),
+                    'target:%s:data' % kind)
+
+            if eof is not None and eof != recv_eof:
+                raise Violation('target', '%s -> %s: EOF/closed=%s with '
+                                'recv_eof=%s' % (name, kind, eof, recv_eof),
+                                'target:%s:eof' % kind)
+
+        wexit = want_exit(case['end'])
+        got = (res.exit_status, res.exit_signal, res.returncode)
+
+        if got != wexit:
+            raise Violation('exit-info', 'wait() reported %r, server sent '
+                            '%r' % (got, wexit), 'exit-info:redirect')
+
+        h.pump(chunker)
+        return finish_case(h, labels, NT_REDIR)
+    finally:
+        try:
+            pair.close()
+        finally:
+            ends.close()
+            shutil.rmtree(tmp, ignore_errors=True)
+
+
+SRC_KINDS = ['path', 'pathlib', 'file', 'textfile', 'fd', 'pipe', 'pipefd',
+             'socket', 'stream', 'devnull', 'sshreader']
+TGT_KINDS = ['PIPE', 'path', 'pathlib', 'file', 'textfile', 'fd', 'pipe',
+             'pipefd', 'socket', 'stream', 'stream', 'devnull', 'sshwriter']
+
+
+def redirect_strategy(tier: str):
+    max_tokens = 16 if tier == 'quick' else 40
+
+    @st.composite
+    def build(draw):
+        enc = draw(st.sampled_from(ENCODINGS))
+        alpha = ALPHA_T if enc else ALPHA_B
+        win = draw(st.sampled_from([1, 3, 8, 64, 4096, 2097152]))
+        pkt = draw(st.sampled_from(PKTSIZES))
+        swin = draw(st.sampled_from([1, 3, 8, 64, 4096, 2097152]))
+        spkt = draw(st.sampled_from(PKTSIZES))
+        text = stream_strategy(alpha, ['\n'], max_tokens)
+        kinds = [k for k in SRC_KINDS if enc or k != 'textfile']
+        kin = draw(st.sampled_from([None, None] + kinds))
+        tk = [k for k in TGT_KINDS if (enc or k != 'textfile') and
+              (k != 'sshwriter' or kin != 'sshreader')]
+        kout = draw(st.sampled_from(tk))
+        kerr = draw(st.sampled_from(
+            [k for k in ('PIPE', 'PIPE', 'devnull', 'path', 'stream',
+                         'stdout', 'file')]))
+        send_eof = draw(st.booleans())
+        recv_eof = draw(st.booleans())
+
+        if 'ssh' in (kin or '') + kout:
+            recv_eof = send_eof
+
+        sin = None
+        big = False
+
+        if kin:
+            data = draw(text)
+
+            if kin in ('file', 'path', 'stream') and draw(
+                    st.integers(0, 19 if tier == 'quick' else 7)) == 0:
+                # enough to fill the channel's 64 KiB write buffer
+                data = (data + 'ab\n0') * (75000 // (len(data) + 4) + 1)
+                swin, spkt = 16384, 4096
+                big = True
+
+            sin = {'kind': kin, 'data': '' if kin == 'devnull' else data}
+
+        wsz = st.one_of(st.integers(0, 12),
+                        st.sampled_from([1, pkt, win, win + 1, 1000]))
+        script = draw(st.lists(st.one_of(
+            wsz.map(lambda n: ['o', n]), wsz.map(lambda n: ['o', n]),
+            wsz.map(lambda n: ['e', n]), st.just(['drain']),
+            st.just(['yield'])), max_size=6))
+        late = 0
+
+        if kout not in ('PIPE', 'sshwriter') and draw(st.integers(0, 3)) == 0:
+            late = draw(st.integers(1, 3))
+
+        return {'enc': enc, 'win': win, 'pkt': pkt, 'swin': swin,
+                'spkt': spkt, 'out': draw(text),
+                'err': draw(st.one_of(st.just(''), text)),
+                'script': script,
+                'end': draw(end_strategy().filter(lambda e: e != ['eof'])),
+                'stdin': sin, 'stdout': kout, 'stderr': kerr,
+                'send_eof': send_eof, 'recv_eof': recv_eof,
+                'bufsize': 8192 if big else draw(
+                    st.sampled_from([7, 128, 8192])),
+                'late': late,
+                'hw': draw(st.sampled_from([None, None, 0, 64])),
+                'chunks': draw(st.one_of(
+                    st.just([]), st.just([1]),
+                    st.lists(st.integers(1, 400), min_size=1, max_size=5))),
+                'sapi': draw(st.sampled_from(['session', 'process']))}
+
+    return build()
+
+
 FAMILIES = [
     Family('reader', run_reader, strategy=reader_strategy,
            budget={'quick': 260, 'thorough': 6000},
@@ -930,5 +2120,26 @@ FAMILIES = [
                              'concurrent', 'chunk-1byte', 'exit-before-data',
                              'op-read', 'op-exact', 'op-line', 'op-until',
                              'final-iter', 'sep-found']},
+           timeout_is_violation=True, case_timeout=120),
+    Family('srvreader', run_srvreader, strategy=srvreader_strategy,
+           budget={'quick': 90, 'thorough': 2000},
+           required={'all': ['strict', 'weak', 'exc-raised',
+                             'exc-between-data', 'inc-before-exc',
+                             'end-close', 'end-eof']},
+           timeout_is_violation=True, case_timeout=120),
+    Family('process', run_process, strategy=process_strategy,
+           budget={'quick': 110, 'thorough': 2500},
+           required={'all': ['exit-before-data', 'status-before-read',
+                             'client-run', 'client-wait',
+                             'client-communicate', 'timeout', 'input-checked',
+                             'merge-stderr', 'pre-read', 'collect',
+                             'end-signal', 'end-close']},
+           timeout_is_violation=True, case_timeout=120),
+    Family('redirect', run_redirect, strategy=redirect_strategy,
+           budget={'quick': 110, 'thorough': 2500},
+           required={'all': ['data>window', 'late-redirect', 'proc-to-proc',
+                             'no-recv_eof', 'no-send_eof'] +
+                     ['stdout-' + k for k in sorted(set(TGT_KINDS))] +
+                     ['stdin-' + k for k in SRC_KINDS]},
            timeout_is_violation=True, case_timeout=120),
 ]
